@@ -8,19 +8,21 @@ def make_jobs(ctx):
     src = "c13_fd.c"
     for e in entries(os.path.join(H, src)):
         nm = e[2:]
-        fn = ["wasi.c:" + (nm[5:] if nm.startswith("dead_") else {"init": "wasiInit", "add": "wasiFileDescriptorAdd", "add_oom": "wasiFileDescriptorAdd",
+        fn = ["wasi.c:" + (nm[5:] if nm.startswith("dead_") else {"init": "wasiInit", "add": "wasiFileDescriptorAdd", "add_oom": "wasiFileDescriptorAdd", "add_small": "wasiFileDescriptorAdd",
                                                                    "close": "fd_close/wasiFileDescriptorClose", "close_twice": "fd_close",
                                                                    "prestat": "fd_prestat_get/fd_prestat_dir_name"}.get(nm, nm))]
         kw = {}
         if nm == "add_oom":
             kw["malloc_may_fail"] = True
             kw["flags"] = ["--malloc-may-fail", "--malloc-fail-null"]
+        if nm == "add_small":
+            kw["unwind"] = 12
         if nm.startswith("dead_"):
             kw["defines"] = ["GMEM=48"]
             kw["unwind"] = 50
             if "readdir" in nm:
                 kw["unwindset"] = "wasiFDReaddir.0:4"   # buffer length <= 8 in these harnesses: at most one record fits
-        small = nm in ("prestat", "dead_p1_path_rename_new", "add_oom")
+        small = nm in ("prestat", "dead_p1_path_rename_new", "add_oom", "add_small")
         jobs.append(wasi_job(ctx, "W." + nm, src, e, fn,
                              bounded=("descriptor table of <= 4 entries with symbolic states; descriptor paths <= 3 characters" if small else None),
                              info=dict(table="symbolic length up to 2^20 entries (no loop over entries in the code under test); PATH_MAX redefined to 16"), **kw))
